@@ -319,7 +319,7 @@ class Flow:
 
 FULL = (('asg', 0), ('asg', 1), ('asg', 2), ('tup', 0), ('tup', 1), ('tup', 2), ('cmp', 0), ('cmp', 1),
         ('ret', 0), ('ret', 1), ('ret', 2))
-OWN = {'if1': 0, 'for': 1, 'fz': 2, 'whl': 0, 'wth': 1}
+OWN = {'if1': 0, 'for': 1, 'fz': 2, 'whl': 0, 'whn': 1, 'wth': 1}
 DEPTH = 2
 
 
@@ -391,7 +391,7 @@ def slots(b, out):
             slots(s[1], out)
             slots(s[2], out)
         elif k != 'pass':
-            out += {'for': ['D'], 'wth': ['D'], 'fz': ['D', 'D<']}.get(k, [])
+            out += {'for': ['D'], 'wth': ['D'], 'fz': ['D', 'D<'], 'whn': ['U']}.get(k, [])
             slots(s[1], out)
     return out
 
@@ -469,6 +469,13 @@ def render(b, fill, names=NAMES):
                 elif k == 'whl':
                     j = cnt['k']
                     lines.append(f'{pad}while k{j} > 0:')
+                    lines.append(f'{pad}    k{j} = k{j} - 1')
+                    cnt['k'] += 1
+                elif k == 'whn':
+                    # the loop test reads a program name (evaluated first, before every iteration incl. the first)
+                    j = cnt['k']
+                    x = nm()
+                    lines.append(f'{pad}while {x} == {x} and k{j} > 0:')
                     lines.append(f'{pad}    k{j} = k{j} - 1')
                     cnt['k'] += 1
                 elif k == 'wth':
@@ -716,7 +723,7 @@ def gen_random(rng: random.Random):
             budget[0] -= 1
             r = rng.random()
             if depth > 0 and r < 0.45 and budget[0] > 0:
-                k = rng.choice(('ife', 'if1', 'if1', 'for', 'fz', 'whl', 'wth'))
+                k = rng.choice(('ife', 'if1', 'if1', 'for', 'fz', 'whl', 'whn', 'wth'))
                 if k in ('ife', 'if1'):
                     lines.append(f'{pad}if c{cnt["c"]}:')
                     cnt['c'] += 1
@@ -739,6 +746,12 @@ def gen_random(rng: random.Random):
                     blk(ind + 1, depth - 1, scope_seen)
                 elif k == 'whl':
                     lines.append(f'{pad}while k{cnt["k"]} > 0:')
+                    lines.append(f'{pad}    k{cnt["k"]} = k{cnt["k"]} - 1')
+                    cnt['k'] += 1
+                    blk(ind + 1, depth - 1, scope_seen)
+                elif k == 'whn':
+                    x = rng.choice(RNAMES)
+                    lines.append(f'{pad}while {x} == {x} and k{cnt["k"]} > 0:')
                     lines.append(f'{pad}    k{cnt["k"]} = k{cnt["k"]} - 1')
                     cnt['k'] += 1
                     blk(ind + 1, depth - 1, scope_seen)
@@ -874,7 +887,7 @@ def selftest():
             for fill in fillings(slots(b, [])):
                 texts.add(render(b, fill))
                 n += 1
-    assert n == len(texts) == 3590, (n, len(texts))
+    assert n == len(texts) == 3699, (n, len(texts))
     assert '@fp.fpy\ndef main(xs0):\n    for a in xs0:\n        pass\n    return a\n' in texts
     # 3. the run-time detectors see what they must see on this tree: delete a binding / the final return
     #    from the AST of an accepted function (bypassing the front end) and call it
